@@ -101,9 +101,9 @@ def ieNodes (ii loc : List VId) : Subst → List VId → List Node → IeRes
   | σ, outs, .mk op attrs ins nouts bodies :: ns =>
     match ieCandidate op (substIns σ ins) nouts with
     | some (x, y) =>
-      if outs.contains y && (ii.contains x || !loc.contains x) then
-        -- case 3 / 3b (identity_elimination.py:99-110): the output is a graph output and the input is
-        -- a graph input, an initializer or a value of an outer scope: keep
+      if outs.contains y && (ii.contains x || !loc.contains x || outs.contains x) then
+        -- case 3 / 3b / 3c (identity_elimination.py:99-117): the output is a graph output and the input
+        -- is a graph input, an initializer, a value of an outer scope or itself a graph output: keep
         let r := ieNodes ii loc σ outs ns
         ⟨.mk op attrs (substIns σ ins) nouts (ieBodies ii σ bodies) :: r.nodes, r.outs, r.σ⟩
       else
@@ -211,33 +211,24 @@ def cseModel (limit : Nat) (m : Model) : Model :=
     { graph := .mk inputs r.outs inits r.nodes, funcs := m.funcs }
 
 /-! ## RemoveInitializersFromInputsPass / AddInitializersToInputsPass
-(constant_manipulation.py:199-245): every graph of `model.graphs()` = the main graph and its subgraphs -/
+(constant_manipulation.py:199-251): the main graph only (the inputs of a subgraph are bound by position by
+the operator that owns it) -/
 
-mutual
-/-- rewrite the input list of every graph in the nest: `f inputs initializerIds` -/
-def mapInputsG (f : List VId → List VId → List VId) : Graph → Graph
-  | .mk inputs outputs inits nodes => .mk (f inputs (inits.map Prod.fst)) outputs inits (mapInputsNodes f nodes)
-def mapInputsNodes (f : List VId → List VId → List VId) : List Node → List Node
-  | [] => []
-  | n :: ns => mapInputsN f n :: mapInputsNodes f ns
-def mapInputsN (f : List VId → List VId → List VId) : Node → Node
-  | .mk op attrs ins outs bodies => .mk op attrs ins outs (mapInputsBodies f bodies)
-def mapInputsBodies (f : List VId → List VId → List VId) : List Graph → List Graph
-  | [] => []
-  | b :: bs => mapInputsG f b :: mapInputsBodies f bs
-end
+/-- rewrite the input list of one graph: `f inputs initializerIds` -/
+def mapInputsTop (f : List VId → List VId → List VId) : Graph → Graph
+  | .mk inputs outputs inits nodes => .mk (f inputs (inits.map Prod.fst)) outputs inits nodes
 
-/-- constant_manipulation.py:209-219 -/
+/-- constant_manipulation.py:209-222 -/
 def removeInitsFromInputs (inputs initIds : List VId) : List VId :=
   inputs.filter (fun v => !initIds.contains v)
-/-- constant_manipulation.py:235-241 -/
+/-- constant_manipulation.py:238-248 -/
 def addInitsToInputs (inputs initIds : List VId) : List VId :=
   inputs ++ initIds.filter (fun v => !inputs.contains v)
 
 def rmInitInputsModel (m : Model) : Model :=
-  { graph := mapInputsG removeInitsFromInputs m.graph, funcs := m.funcs }
+  { graph := mapInputsTop removeInitsFromInputs m.graph, funcs := m.funcs }
 def addInitInputsModel (m : Model) : Model :=
-  { graph := mapInputsG addInitsToInputs m.graph, funcs := m.funcs }
+  { graph := mapInputsTop addInitsToInputs m.graph, funcs := m.funcs }
 
 /-! ## LiftConstantsToInitializersPass (constant_manipulation.py:23-141): main graph and subgraphs -/
 
